@@ -13,7 +13,7 @@ RULE = ("grammar-generated and mutated URL strings (schemes, hosts incl. IDN / I
         "rejected by a guard; distinct by input")
 
 SCHEMES = ["http://", "https://", "", "", "HTTP://", "ftp://", "mailto:", "javascript:", "//", "https:/", "ws://"]
-HOSTS = ["example.com", "sub.example.org", "EXAMPLE.com", "localhost", "127.0.0.1", "127.0.0.2", "bücher.example", "xn--bcher-kva.example",
+HOSTS = ["example.com", "sub.example.org", "EXAMPLE.com", "localhost", "127.0.0.1", "127.0.0.2", "127.0.0.1:8080", "localhost:3000", "0x7f.1:9090", "bücher.example", "xn--bcher-kva.example",
          "a", "example.com.", "[::1]", "[2001:db8::1]", "192.168.1.10", "h.example:8080", "user:pw@example.net", "example.com:80", "archive.org",
          "exa mple.com", "-bad-.example"]
 PATHS = ["", "/", "/a/b", "/a/../b", "/a/./b/", "/%7Euser/x%20y", "/a b", "/été", "/a//b", "/../../x", "/index.html", "/a;p=1/b", "/%zz"]
@@ -208,7 +208,9 @@ def escape_stream(ctx, n):
             ctx.violation("QueryUnescape(QueryEscape(b)) != b for b=%s: %s" % (j["hex"], a), {"domain": "url", "line": j, "impl": a})
 
 
-SEGS = ["a", "b", "c", "img", "x.png", "d;p", "v1", "~u", "q-1", "e_f", "index.html", "k.tar.gz", "A", "0"]
+SEGS = ["a", "b", "c", "img", "x.png", "d;p", "v1", "~u", "q-1", "e_f", "index.html", "k.tar.gz", "A", "0",
+        # percent-encoded delimiters stay as they are: a segment is opaque to resolution
+        "AC%2FDC", "a%3Fb", "x%23y", "50%25", "sp%20ace"]
 # queries that the query canonicalisation (a separate, deliberate step: C09's query theorems) leaves as they are
 RQ = ["", "", "?y=2", "?a=1", "?a=1&b=2", "?b=2&a=1&b=3", "?k=v1.2", "?p=x.y~z"]
 
